@@ -1687,7 +1687,7 @@ def parse_einsum_input(args, shapes=False, tuples=False, constants=None):
         if not isinstance(next((d for s in _shapes for d in s), 1), int):
             # first check any dimension to see if python int
             _shapes = tuple(tuple(int(d) for d in s) for s in _shapes)
-        elif not isinstance(_shapes[0], tuple):
+        elif not all(isinstance(s, tuple) for s in _shapes):
             # then check if individual shapes not supplied as tuples
             _shapes = tuple(tuple(s) for s in _shapes)
         else:
